@@ -33,19 +33,19 @@ P = {
    text="Before each rename/move the harness resolves every reference to its target object with its own index; afterwards references that designated the renamed/moved element or its descendants must designate the same objects, all others keep their text.",
    note="resolution by harness-side index, not by the crate's cache", ref="5/C06"),
  "C07": dict(engine="HIST", technique="runtime monitor: independent pairwise order model vs calc_element_insert_range/create_*_at/list_valid_sub_elements; serialize→lenient-load validator agreement",
-   text="On API-built models over all element types and versions the insertion range, create-at success and allowed-list are compared with a pairwise reference order model; serialized output is re-validated by the lenient loader and compared with the original content.",
+   text="On API-built models over all element types and versions the insertion range, create-at success and allowed-list are compared with a pairwise reference order model; after every successful call every value must lie in its value space (length limit, pattern, enum item valid in the version, kind) and every identifiable element must have its SHORT-NAME; serialized output is re-validated by the lenient loader and compared with the original content.",
    note="order model uses find_common_group/multiplicity tables of the specification crate (trusted, subject of C18)", ref="5/C07"),
  "C08": dict(engine="DOC", technique="runtime differential monitor strict vs lenient; single-defect injection with table-derived expectation",
    text="Every input of the DOC corpora is loaded in both modes and the outcomes are compared (Ok⇔Ok+no warnings, first warning = strict error, same model); documents with exactly one injected, table-derived constraint violation must be rejected by strict loading. Thorough repeats the quick workload in an AddressSanitizer build.",
    note="only injections whose illegality is computed from the specification tables are judged", ref="5/C08"),
  "C09": dict(engine="DOC", technique="runtime monitor: split-a-master generator, all load orders, union/attribution/projection oracles",
-   text="Random master models are split at splittable points into 2-4 files with shuffled sibling order; every load order must give the master's content, the assigned file sets, per-file projections and order-independent merged content. Thorough repeats the quick workload in an AddressSanitizer build.",
+   text="Random master models are split at splittable points into 2-4 files with shuffled sibling order; every load order must give the master's content, order-independent merged content, per-file projections, and Element::file_membership() of every identifiable element must name exactly the files whose text contains it. Thorough repeats the quick workload in an AddressSanitizer build.",
    note="value conflicts between files are outside the precondition and not generated", ref="5/C09"),
  "C10": dict(engine="HIST", technique="runtime invariant monitor of file membership after every call; per-file text vs projection; remove_file delta oracle",
    text="After every call of file-set histories on 1-4 file models the membership invariants, per-file serialization vs projection and self-containedness are checked; remove_file must remove exactly the elements attributed to that file alone. Thorough repeats the quick workload in an AddressSanitizer build.",
    note="per-file text is read back with the crate's own lenient loader and compared with the harness projection", ref="5/C10"),
  "C11": dict(engine="HIST", technique="runtime monitor: full-state snapshot before/after every failing call (hostile-argument generator)",
-   text="A canonical snapshot (tree with values, files, membership, path index, referrer lists via hook) is taken before every call; whenever the call returns Err the snapshot afterwards must be identical.",
+   text="A canonical snapshot (tree with values, files, membership, path index, referrer lists via hook) is taken before every call; whenever the call returns Err the snapshot afterwards must be identical. A directed sweep adds failing create calls for element types round-robin over the whole specification, in old and new versions, with every sub element name the type lists in any version.",
    note="disk writes excluded; snapshot covers what the property calls observable", ref="5/C11"),
  "C12": dict(engine="HIST", technique="runtime monitor: catch_unwind + single-thread self-deadlock detector in the lock shim (+ Miri on a small API tour in thorough); process aborts on deep models are observed by the child processes of C02",
    text="The whole public API is driven with hostile arguments and stale/foreign handles on generated, loaded (lenient) and merged models; panics, aborts, unsatisfiable blocking lock requests by the only thread and ParentElementLocked results are violations.",
@@ -54,7 +54,7 @@ P = {
    text="Around every deep copy the copy is compared structurally with its source (same version: identical up to the name suffix; other version: exactly the permitted parts), indexes are checked, and after duplicate() edits of one side must leave the other side's snapshot unchanged. Thorough repeats the quick workload in an AddressSanitizer build.",
    note="permitted-in-version is computed by an independent walk over the specification tables", ref="5/C13"),
  "C14": dict(engine="HIST", technique="runtime monitor around sort: multiset preservation, idempotence, permutation independence",
-   text="Around sort() the children multiset at every element, order where reordering is forbidden, idempotence and independence of the initial sibling permutation are checked, together with the structural monitors. Thorough repeats the quick workload in an AddressSanitizer build.",
+   text="Around sort() the children multiset at every element, order where reordering is forbidden, idempotence and independence of the initial sibling permutation are checked (API-built sibling families and whole-specification documents with same-kind siblings multiplied at every nesting level, also below ordered elements), together with the structural monitors. Thorough repeats the quick workload in an AddressSanitizer build.",
    note="siblings identical up to comments are identified, as the property allows", ref="5/C14"),
  "C15": dict(engine="SCHED", technique="runtime lock-event monitor + serialising scheduler over real threads running the real code (deadlock = unfinished threads, none enabled); lock model validated against the real parking_lot lock on every grant; thorough adds free-running pairs under Miri",
    text="Pairs/triples of public operations run on real threads; every lock acquisition is a scheduling point decided by a bounded-deviation depth-first / random scheduler over a model of parking_lot's RwLock (lazy and eager timeouts of the timed requests); a state with unfinished threads and none enabled is a deadlock. Every request the model grants is executed with try_* on the real lock and must succeed (a mismatch makes the run inconclusive).",
@@ -63,7 +63,7 @@ P = {
    text="For each explored schedule of an operation pair the returned values and final snapshot must equal those of some sequential order (or an order without the operations that returned ParentElementLocked).",
    note="schedules explored at lock-acquisition granularity up to a preemption bound", ref="5/C16"),
  "C17": dict(engine="DOC", technique="runtime differential monitor: check_version_compatibility/set_version vs relabel-and-strict-load oracle over version pairs",
-   text="For documents containing version-dependent elements/attributes/enum values and all target versions the compatibility verdict, the mask and set_version are compared with strict loading of the relabelled text. Thorough repeats the quick workload in an AddressSanitizer build.",
+   text="For documents containing version-dependent elements/attributes/enum values and all target versions the compatibility verdict, the mask and set_version are compared with strict loading of the relabelled text; half of the documents have elements emptied of their content so that attributes of content-less elements are exercised. Thorough repeats the quick workload in an AddressSanitizer build.",
    note="precondition: the document loads strictly under its own version", ref="5/C17"),
  "C18": dict(engine="TABLE", technique="runtime exhaustive table sweep: listings parsed from source vs lookups; neighbour non-members; thorough adds a seeded sample of the transmute lookups under Miri",
    text="All names/items/versions listed in the generated sources are round-tripped through the lookups, every (type, listed sub-element/attribute, version) is looked up, all reference×named type pairs are checked, and all one-edit neighbours plus random strings must be rejected. The finite member domains are enumerated completely.",
